@@ -9,6 +9,10 @@ import WpModel.Model.Declarations
 import WpModel.Model.VarSubst
 import WpModel.Model.LengthC07
 import WpModel.Model.PendingC07
+import WpModel.Model.ExpandersC07
+import WpModel.Model.SheetC07
+import WpModel.Model.KeywordsC07
+import WpModel.Model.DescriptorsC07
 
 namespace Wp.Drive.C07
 open Wp Wp.Decl
@@ -102,7 +106,7 @@ def items? (x : Sx) : Option (List (String × String)) :=
     | .list [n, i] => do pure ((← str? n), (← i.atom?))
     | _ => none)
 
-def joinIds (ids : List String) : String := "+".intercalate ids
+def joinIds (ids : List String) : String := if ids.isEmpty then "e" else "+".intercalate ids
 
 def optStr? : Sx → Option (Option String)
   | .atom "none" => some none
@@ -269,6 +273,71 @@ def casc? : Sx → Option (Pending.Casc String)
   | .list [.atom "pending", .atom "invalid"] => some (.pending .invalid)
   | _ => none
 
+def optInt? : Sx → Option (Option Int)
+  | .atom "none" => some none
+  | x => x.int?.map some
+
+def optRat? : Sx → Option (Option Rat)
+  | .atom "none" => some none
+  | x => x.rat?.map some
+
+def clampTok? : Sx → Option (ClampTok String)
+  | .list [n, num, iv, e, i] => do
+    pure { isNone := ← n.bool?, isNumber := ← num.bool?, intValue := ← optInt? iv, ellipsisOk := ← e.bool?,
+           tok := ← i.atom? }
+  | _ => none
+
+def flexTok? : Sx → Option FlexTok
+  | .list [z, b, f, i] => do
+    pure { isZeroNumber := ← z.bool?, basisOk := ← b.bool?, factor := ← optRat? f, id := ← i.atom? }
+  | _ => none
+
+def fontTok? : Sx → Option (FontTok String)
+  | .list [n, st, c, w, sr, sz, sl, lh, i] => do
+    pure { isNormal := ← n.bool?, isStyle := ← st.bool?, isCaps := ← c.bool?, isWeight := ← w.bool?,
+           isStretch := ← sr.bool?, isSize := ← sz.bool?, isSlash := ← sl.bool?, isLineHeight := ← lh.bool?,
+           tok := ← i.atom? }
+  | _ => none
+
+def gridLine? : Sx → Option (GridLine String)
+  | .list [ok, c, .list ids] => do
+    pure { ok := ← ok.bool?, custom := ← c.bool?, toks := ← allSome Sx.atom? ids }
+  | _ => none
+
+def trackPart? : Sx → Option (TrackPart String)
+  | .list [ok, .list ids] => do pure { ok := ← ok.bool?, toks := ← allSome Sx.atom? ids }
+  | _ => none
+
+def gridTok? : Sx → Option (GridTok String)
+  | .list [d, a, l, i] => do
+    pure { isDense := ← d.bool?, isAutoFlow := ← a.bool?, isLast := ← l.bool?, tok := ← i.atom? }
+  | _ => none
+
+def optBool? : Sx → Option (Option Bool)
+  | .atom "none" => some none
+  | x => x.bool?.map some
+
+def optNat? : Sx → Option (Option Nat)
+  | .atom "none" => some none
+  | x => x.nat?.map some
+
+partial def rule? : Sx → Option Sheet.Rule
+  | .atom "nc" => some .noContent
+  | .atom "fontface" => some .fontFace
+  | .atom "other" => some .otherAt
+  | .list [.atom "counter", ok] => ok.bool?.map .counterStyle
+  | .list [.atom "style", id, ok, .list ps, d] => do
+    pure (.style (← id.nat?) (← ok.bool?) (← allSome Sx.bool? ps) (← d.bool?))
+  | .list [.atom "import", u, f, .list rules] => do
+    pure (.importRule (← u.bool?) (← f.bool?) (← allSome rule? rules))
+  | .list [.atom "media", q, .list rules] => do pure (.media (← optBool? q) (← allSome rule? rules))
+  | .list [.atom "page", id, n, d, .list ms] => do
+    let ms ← allSome (fun m => match m with
+      | .list [name, h] => do pure ((← str? name), (← h.bool?))
+      | _ => none) ms
+    pure (.page (← id.nat?) (← optNat? n) (← d.bool?) ms)
+  | _ => none
+
 /-! ### the handler -/
 
 def handle (cmd : String) (args : List Sx) : Option String :=
@@ -342,6 +411,130 @@ def handle (cmd : String) (args : List Sx) : Option String :=
   | "text-align", [name, hd, n, kw, tok, jt, st, tbl] => do
     let raw := textAlignRaw (← n.nat?) (← optStr? kw) (← tok.atom?) (← jt.atom?) (← st.atom?)
     runGeneric "expand_text_align" (← str? name) (← head? hd) raw (← vtable? tbl)
+  | "descriptors", [rule, .list items] => do
+    let parsed ← allSome (fun x => match x with
+      | .list [k, n, imp, r] => do
+        let res : R (Option String) ← (match r with
+          | .atom "none" => some (.ok none)
+          | .list [.atom "ok", .atom v] => some (.ok (some v))
+          | .atom s => (Fail.parse s).map .error
+          | _ => none)
+        pure ((← kind? k), (← str? n), (← imp.bool?), res)
+      | _ => none) items
+    let indexed := parsed.zipIdx
+    let descs : List Desc := indexed.map fun ((k, n, imp, _), i) => { kind := k, name := n, important := imp, id := i }
+    let validate (_ : String) (d : Desc) : R (Option String) :=
+      match indexed.find? (fun (_, i) => i == d.id) with
+      | some ((_, _, _, r), _) => r
+      | none => .error (.other "NoTableEntry")
+    pure (match preprocessDescriptors (← str? rule) validate descs with
+      | .ok outs => "ok" ++ String.join (outs.map fun (n, v) => " (" ++ encodeAtom n ++ " " ++ v ++ ")")
+      | .error f => f.render)
+  | "font-variant", [name, hd, kw, .list toks, tbl] => do
+    let toks ← allSome (fun x => match x with
+      | .list [n, f, i] => do
+        pure ({ isNormal := ← n.bool?, feature := ← optStr? f, tok := ← i.atom? } : VariantTok String)
+      | _ => none) toks
+    let kw : Option String ← kw.atom?.map fun a => match a.toList with
+      | 'i' :: ':' :: rest => some (decodeAtom (String.ofList rest))
+      | _ => none
+    let raw := mapRaw joinIds (fontVariantRaw kw "normal" "none" toks)
+    runGeneric "font_variant" (← str? name) (← head? hd) raw (← vtable? tbl)
+  | "keyword-validator", [name, .list parts] => do
+    let ktok? (x : Sx) : Option Kw.KTok :=
+      x.atom?.map fun a => match a.toList with
+        | 'i' :: ':' :: rest => some (decodeAtom (String.ofList rest))
+        | _ => none
+    let parts ← allSome (fun p => p.list?.bind (allSome ktok?)) parts
+    pure (match Kw.validate (← str? name) parts with
+      | none => "not-keyword-only"
+      | some none => "invalid"
+      | some (some kws) => "ok" ++ String.join (kws.map fun k => " " ++ encodeAtom k))
+  | "sheet", [ig, .list rules] => do
+    let (events, ig') := Sheet.processRules (← ig.bool?) (← allSome rule? rules)
+    let _ := ig'
+    let isSel (e : Sheet.Event) : Bool := match e with | .selector _ _ => true | _ => false
+    pure ("ok" ++ String.join ((events.filter isSel).map fun e => " " ++ e.render) ++ " |" ++
+      String.join ((events.filter (fun e => !isSel e)).map fun e => " " ++ e.render))
+  | "place", [fn, name, hd, tbl] => do
+    runGeneric (← str? fn) (← str? name) (← head? hd) placeRaw (← vtable? tbl)
+  | "line-clamp", [name, hd, .list toks, tbl] => do
+    let raw := lineClampRaw "none" "auto" "discard" (← allSome clampTok? toks)
+    runGeneric "expand_line_clamp" (← str? name) (← head? hd) raw (← vtable? tbl)
+  | "flex", [name, hd, singleNone, .list toks, tbl] => do
+    let raw := flexRaw (← singleNone.bool?) (fun q => "n:" ++ showRat q) "0px" "auto" (← allSome flexTok? toks)
+    runGeneric "expand_flex" (← str? name) (← head? hd) raw (← vtable? tbl)
+  | "font", [name, hd, systemFont, .list toks, .list famOk, tbl] => do
+    let byLen ← allSome Sx.bool? famOk
+    let familyOk (rest : List (FontTok String)) : Bool := byLen.getD rest.length false
+    let raw := mapRaw joinIds (fontRaw (← systemFont.bool?) familyOk (← allSome fontTok? toks))
+    runGeneric "expand_font" (← str? name) (← head? hd) raw (← vtable? tbl)
+  | "grid-lines", [fn, name, hd, .list lines, tbl] => do
+    let fn ← str? fn
+    let lines ← allSome gridLine? lines
+    let raw := if fn == "expand_grid_area" then gridAreaRaw ["auto"] lines else gridColumnRowRaw ["auto"] lines
+    runGeneric fn (← str? name) (← head? hd) (mapRaw joinIds raw) (← vtable? tbl)
+  | "grid-template", [name, hd, singleNone, .list parts, tbl] => do
+    let raw := gridTemplateRaw (← singleNone.bool?) ["none"] (← allSome trackPart? parts)
+    runGeneric "expand_grid_template" (← str? name) (← head? hd) (mapRaw joinIds raw) (← vtable? tbl)
+  | "grid", [name, hd, singleNone, .list parts, .list sides, tbl] => do
+    let template := gridTemplateRaw (← singleNone.bool?) ["none"] (← allSome trackPart? parts)
+    let sides ← allSome (fun s => s.list?.bind (allSome gridTok?)) sides
+    let raw := gridRaw template "auto" "none" "row" "column" sides
+    runGeneric "expand_grid" (← str? name) (← head? hd) (mapRaw joinIds raw) (← vtable? tbl)
+  | "border-image", [fn, name, hd, withMode, n, .list src, .list mode, .list rep, .list fill, .list slash,
+      .list slices, .list widths, .list outsets, tbl] => do
+    let bools (xs : List Sx) : Option (Nat → Bool) := do
+      let bs ← allSome Sx.bool? xs
+      pure fun i => bs.getD i false
+    let pairs (xs : List Sx) : Option (Nat → Nat → Bool) := do
+      let ps ← allSome (fun x => match x with
+        | .list [i, j] => do pure ((← i.nat?), (← j.nat?))
+        | _ => none) xs
+      pure fun i j => ps.contains (i, j)
+    let o : ImageOracle := { n := ← n.nat?, sourceOk := ← bools src, modeOk := ← bools mode, repeatOk := ← bools rep,
+                             isFill := ← bools fill, isSlash := ← bools slash, sliceOk := ← pairs slices,
+                             widthOk := ← pairs widths, outsetOk := ← pairs outsets }
+    let raw := mapRaw joinIds (borderImageRaw o (← withMode.bool?))
+    runGeneric (← str? fn) (← str? name) (← head? hd) raw (← vtable? tbl)
+  | "background", [hd, .list layers, .list initials] => do
+    let optAtom? (x : Sx) : Option (Option String) := x.atom?.map fun a => if a == "none" then none else some a
+    let opts (xs : List Sx) : Option (Nat → Option String) := do
+      let vs ← allSome optAtom? xs
+      pure fun i => (vs.getD i none)
+    let triples (xs : List Sx) : Option (Nat → Nat → Option String) := do
+      let ts ← allSome (fun x => match x with
+        | .list [p, l, .atom v] => do pure (((← p.nat?), (← l.nat?)), v)
+        | _ => none) xs
+      pure fun p l => ts.lookup (p, l)
+    let layer? (x : Sx) : Option BgOracle := match x with
+      | .list [n, .list r2, .list r1, .list c, .list im, .list att, .list pos, .list sz, .list bx, .list sl] => do
+        let slash ← allSome Sx.bool? sl
+        pure { n := ← n.nat?, repeatFirst := ← opts r2, repeatOne := ← opts r1, color := ← opts c, image := ← opts im,
+               attachment := ← opts att, position := ← triples pos, size := ← triples sz, box := ← opts bx,
+               isSlash := fun i => slash.getD i false }
+      | _ => none
+    let layers ← allSome layer? layers
+    let inits ← allSome (fun x => match x with
+      | .list [n, .atom v] => do pure ((← str? n), v)
+      | _ => none) initials
+    let initial (n : String) : String := (inits.lookup n).getD "?"
+    let names := bgNames
+    pure (match ← head? hd with
+      | .inheritKw => "ok" ++ String.join (names.map fun n => " (" ++ n ++ " kw:inherit)")
+      | .initialKw => "ok" ++ String.join (names.map fun n => " (" ++ n ++ " kw:initial)")
+      | .hasVar => "ok" ++ String.join (names.map fun n => " (" ++ n ++ " pending)")
+      | .plain =>
+        match backgroundExpand layers initial with
+        | none => "invalid"
+        | some (rows, color) =>
+          "ok" ++ String.join (rows.map fun (n, vs) => " (" ++ n ++ String.join (vs.map (" " ++ ·)) ++ ")") ++
+            " (background-color " ++ color ++ ")")
+  | "pending-expander", [name, wanted, items, ends] => do
+    let gen : Raw String := { items := ← items? items, ends := ← fail? ends }
+    pure (match pendingExpanderValidate (← str? name) gen (← str? wanted) with
+      | .ok v => "ok " ++ v
+      | .error f => f.render)
   | "vns", [name, required, hasVar, kw, raw, fnres] => do
     let fr : R (Option String) ← (match fnres with
       | .atom "none" => some (.ok none)
